@@ -95,25 +95,89 @@ def solve(assumptions, goal, timeout_ms, use_cvc5=True, cvc5_first=False):
     if r == z3.sat:
         return "refuted", "z3", dt, s.model()
     reason = s.reason_unknown()
-    if use_cvc5 and os.path.exists(CVC5_BIN):
-        try:
-            smt = "(set-logic ALL)\n" + s.to_smt2()
-            with tempfile.NamedTemporaryFile("w", suffix=".smt2", delete=False) as f:
-                f.write(smt)
-                fn = f.name
-            try:
-                out = subprocess.run([CVC5_BIN, "--tlimit=%d" % int(timeout_ms * 2), fn],
-                                     capture_output=True, text=True, timeout=timeout_ms * 2 / 1000 + 5)
-                o = out.stdout.strip().splitlines()
-                if o and o[0] == "unsat":
-                    return "proved", "cvc5", time.time() - t0, None
-                if o and o[0] == "sat":
-                    return "refuted", "cvc5", time.time() - t0, "cvc5: sat"
-            finally:
-                os.unlink(fn)
-        except Exception as e:  # cvc5 trouble is never a verdict
-            reason += " / cvc5: %r" % (e,)
+    if use_cvc5:
+        st, who, extra = _portfolio(s, timeout_ms)
+        if st is not None:
+            return st, who, time.time() - t0, extra
+        reason += extra
     return "unknown", "z3+cvc5", time.time() - t0, reason
+
+
+Z3_RESTARTS = 4      # reseeded z3 attempts run next to cvc5 once the in-process attempt has said `unknown` (8 in a unit's second attempt)
+
+
+def _portfolio(s, timeout_ms):
+    """(status or None, solver, model / reason): the query of solver s put to cvc5 and to reseeded z3 processes side by side; the first
+    definite answer is taken and the rest are stopped.  z3's run time on the nonlinear real queries of mode B is heavy tailed (the
+    same query: 0.2 s under most seeds, `unknown` after 30 s under a few, and not reproducible between processes), so a restart
+    under another seed is the remedy -- it changes the search order only, never the question.  No answer, a crash or a time-out
+    of a helper process is never a verdict."""
+    import sys, json
+    smt = s.to_smt2()
+    procs, files, note = [], [], ""
+    try:
+        with tempfile.NamedTemporaryFile("w", suffix=".smt2", delete=False) as f:
+            f.write(smt)
+            files.append(f.name)
+        worker = os.path.join(os.path.dirname(os.path.abspath(__file__)), "z3worker.py")
+        nseeds = Z3_RESTARTS * (2 if os.environ.get("PYVC_TIMEOUT_SCALE") else 1)
+        for seed in range(1, nseeds + 1):
+            try:
+                procs.append(("z3/seed%d" % seed, time.time() + timeout_ms / 1000 + 10, subprocess.Popen(
+                    [sys.executable, worker, files[0], str(seed), str(int(timeout_ms))],
+                    stdout=subprocess.PIPE, stderr=subprocess.DEVNULL, text=True)))
+            except Exception as e:
+                note += " / z3 restart: %r" % (e,)
+        if os.path.exists(CVC5_BIN):
+            try:
+                with tempfile.NamedTemporaryFile("w", suffix=".smt2", delete=False) as f:
+                    f.write("(set-logic ALL)\n" + smt)
+                    files.append(f.name)
+                procs.append(("cvc5", time.time() + timeout_ms * 2 / 1000 + 5, subprocess.Popen(
+                    [CVC5_BIN, "--tlimit=%d" % int(timeout_ms * 2), files[-1]],
+                    stdout=subprocess.PIPE, stderr=subprocess.DEVNULL, text=True)))
+            except Exception as e:  # cvc5 trouble is never a verdict
+                note += " / cvc5: %r" % (e,)
+        live = list(procs)
+        while live:
+            time.sleep(0.05)
+            for item in list(live):
+                who, deadline, p = item
+                if p.poll() is None:
+                    if time.time() > deadline:
+                        p.kill()
+                        live.remove(item)
+                    continue
+                live.remove(item)
+                try:
+                    o = (p.stdout.read() or "").strip().splitlines()
+                except Exception:
+                    o = []
+                first = o[0] if o else ""
+                if first == "unsat":
+                    return "proved", who, None
+                if first == "sat" or first.startswith("sat "):
+                    if who == "cvc5":
+                        return "refuted", who, "cvc5: sat"
+                    try:
+                        return "refuted", who, json.loads(first[4:])
+                    except Exception:
+                        return "refuted", who, "z3 restart: sat"
+        return None, "", note
+    finally:
+        for _, _, p in procs:
+            if p.poll() is None:
+                p.kill()
+            try:
+                p.wait(timeout=5)
+                p.stdout.close()
+            except Exception:
+                pass
+        for fn in files:
+            try:
+                os.unlink(fn)
+            except OSError:
+                pass
 
 
 _QCACHE = {}
@@ -286,6 +350,8 @@ class Explorer:
                     rec["model"] = {d.name(): str(extra[d]) for d in extra.decls() if d.arity() == 0}
                 except Exception:
                     pass
+            elif isinstance(extra, dict):     # the counter-model of a reseeded z3 process (already name -> value)
+                rec["model"] = extra
         if info:
             rec["info"] = info
         self.obligations.append(rec)
